@@ -106,6 +106,10 @@ fn main() {
         #[cfg(feature = "compiler")]
         "typecheck" => incan_verif_kani::tcreplay::main(&args[2..]),
         #[cfg(feature = "compiler")]
+        "visibility" => incan_verif_kani::tcreplay::visibility_main(&args[2..]),
+        #[cfg(feature = "compiler")]
+        "constval" => incan_verif_kani::tcreplay::const_main(&args[2..]),
+        #[cfg(feature = "compiler")]
         "plan" => incan_verif_kani::planreplay::main(&args[2..]),
         _ => {
             eprintln!("unknown mode");
